@@ -200,7 +200,7 @@ func impl(ops []string) []string {
 	return outs
 }
 
-var xPercents = []float64{0, 0.7, 0.7, 0.35, 0.5, 0.25, 1.0 / 3, 2.0 / 3, 1, 0.1, 0.9, 0.6, 0.55, 0.07, 0.29, 0.57, 0.58, 1e-300, 5e-324, 0.9999999999999999, 0.30000000000000004}
+var xPercents = []float64{0, 0.7, 0.7, 0.35, 0.5, 0.25, 1.0 / 3, 2.0 / 3, 1, 0.1, 0.9, 0.6, 0.55, 0.07, 0.29, 0.57, 0.58, 0.28, 0.14, 1e-300, 5e-324, 0.9999999999999999, 0.30000000000000004}
 
 func genLayout(r *rand.Rand, thorough bool) []cand {
 	n := r.Intn(13)
@@ -503,7 +503,7 @@ func main() {
 		ID: "C39", Model: "C39", Gen: gen, Impl: impl, Oracle: oracle,
 		Cases: func(th bool) int {
 			if th {
-				return 60000
+				return 30000
 			}
 			return 2000
 		},
@@ -516,10 +516,12 @@ func main() {
 			fixedCase(4, 0.7, true, []int64{3, 4, 5}, []cand{{1, 5, true}, {2, 5, true}, {3, 5, true}, {4, 7, false}, {5, 5, false}, {6, 5, false}, {7, 1, true}}),
 			// y = 1 with ties at the top: the smallest id wins whatever the seed
 			fixedCase(1, 0, true, []int64{1, 2, 3, 4, 5, 6, 7, 8}, []cand{{11, 3, false}, {12, 3, true}, {13, 3, false}}),
-			// percentages whose product with maxNodes is not exact in binary64 (0.35*20 = 7.000000000000001 -> 8; 0.07*100)
-			fixedCase(20, 0.35, true, []int64{1}, mk20()),
-			fixedCase(20, 0.55, true, []int64{1}, mk20()),
-			fixedCase(20, 0.15, true, []int64{1}, mk20()),
+			// percentages whose product with maxNodes is not exact in binary64 (0.28*25 = 7.000000000000001 -> quota 8;
+			// 0.14*50 likewise; 0.57*30, 0.29*30 round below the real product)
+			fixedCase(25, 0.28, true, []int64{1}, mk(30)),
+			fixedCase(50, 0.14, true, []int64{1}, mk(60)),
+			fixedCase(30, 0.57, true, []int64{1}, mk(40)),
+			fixedCase(20, 0.35, true, []int64{1}, mk(30)),
 		},
 		Extra: func() map[string]interface{} {
 			return map[string]interface{}{"oracle_judged_calls": stat.judged, "branch_all_fit": stat.allFit, "branch_tie_search": stat.tie,
@@ -528,9 +530,9 @@ func main() {
 	})
 }
 
-func mk20() []cand {
+func mk(n int) []cand {
 	var cs []cand
-	for i := 0; i < 30; i++ {
+	for i := 0; i < n; i++ {
 		cs = append(cs, cand{uint64(100 + i), uint64(1000 - 7*i), i%3 != 2})
 	}
 	return cs
